@@ -12,7 +12,18 @@ TB = ("Trusted: Coq 8.16.1 kernel (vm_compute for finite sweeps/examples, no nat
 
 CLAIMS = {
  # id: (level text, technique, design_ref)
- 'C02': ("Theorems (Rocq, all inputs): insertion and removal of the shared red-black core preserve red-black validity (root colour free) and removal never needs a missing sibling/nephew; every valid RB tree has height <= 2*log2(n+1)+1; every state of the map/set model reachable by ANY valid user-level history is a valid RB tree, a search tree in key order, with pairwise distinct slots. Mutual consistency of parent/child links and 'sentinel linked nowhere' are true of an inductive tree by construction and are decided for the real arena by the snapshot abstraction on every explored state. Tie to code: shape+colours+entities of all three real trees compared with the model after every operation (exhaustive closure over <=5 keys, random histories to thousands of entries), invariant checkers rb_ok/bst_ok/height_ok/links evaluated on the implementation's own snapshots.",
+ 'C01': ("Theorem (Rocq, all valid histories of any length, all capacity hints): the expiring-key tree model - including lazy expiry, i.e. physical deletion and rebalancing of expired entries while a search holds a slot - runs every valid history to completion and every first_less / first_less_or_equal / first_less_or_equal_by answer equals the reference answer over exactly the entries with expiration > t (for comparators: monotone with at most one live Equal key); the search-loop theorem is proved from ANY state satisfying the invariant. Tie to code: answers and full state of the real KeyExpTree compared with the extracted model and reference semantics after every operation; exhaustive closure over 3 keys x expirations time+{0,1,2} x clock 0..3 with every operation from every reachable state.",
+         "Rocq proof (loop invariant of the lazy-expiry search under deletions around the held node; refinement to the bag semantics) + correspondence run", "6 C01, 13.5"),
+ 'C06': ("Same refinement theorem as C01 for get_value (output = ref_get of the bag: value of the entry with key k and expiration > t, else None), plus the one-step form from any related state. Tie: G operations on the real tree for stored / expired / absent keys at every clock value of the exhaustive closure and random histories.",
+         "Rocq refinement proof + correspondence run", "6 C06"),
+ 'C07': ("Theorems (Rocq): from any state related to a bag the export returns map val (sort-by-key (entries with expiration > t)) and leaves the state unchanged; for every valid history the tree model and the sorted-list model run to completion and agree on every output (all exports included). Tie: V operations on real tree and real list at every time relative to the stored expirations.",
+         "Rocq proof (export = filter live of the in-order list; uniqueness of the sorted permutation) + correspondence run", "6 C07"),
+ 'C19': ("Theorems (Rocq): the capacity the (repaired) export requests equals the number of stored entries and the exported vector fits; the formula of the unrepaired code is refuted by a 1000-entry witness (2 097 152 slots). Partial by nature: allocation is runtime behaviour - the check compares Vec::capacity() of the real export with the model's request and with the bound 4n+16 on trees up to 300 000 entries (thorough: 5 000 000), three insertion orders, list variant included.",
+         "Rocq theorem about the requested capacity + direct measurement of Vec::capacity on the real export", "6 C19"),
+ 'C20': ("Theorem (Rocq): for every valid history h ++ [o], every stored entity that the last operation hands to the caller's ordering / comparator (the model's EvCmp events, produced by insert, the three predecessor queries and exact lookup) has expiration > t and is stored; for the list: the purge leaves exactly the live entries whether or not the cached-minimum shortcut fires, and the cached minimum is a lower bound in every reachable state. Tie: instrumented Ord / closure in the harness record every stored key they are shown; predicate exp > t evaluated on each; the set per operation compared with the model's events.",
+         "Rocq proof over the model's callback-event lists + instrumented comparison callbacks on the real code", "6 C20"),
+
+ 'C02': ("Theorems (Rocq, all inputs): insertion and removal of the shared red-black core preserve red-black validity (root colour free) and removal never needs a missing sibling/nephew; every valid RB tree has height <= 2*log2(n+1)+1; every state of the map/set model and of the expiring-key tree model (lazy expiry included) reachable by ANY valid history is a valid RB tree, a search tree in key order, with pairwise distinct slots. Mutual consistency of parent/child links and 'sentinel linked nowhere' are true of an inductive tree by construction and are decided for the real arena by the snapshot abstraction on every explored state. Tie to code: shape+colours+entities of all three real trees compared with the model after every operation (exhaustive closure over <=5 keys, random histories to thousands of entries), invariant checkers rb_ok/bst_ok/height_ok/links evaluated on the implementation's own snapshots.",
          "Rocq proof (induction over histories, status-indexed RB invariants) + model/implementation correspondence run", "6 C02, 13.4"),
  'C04': ("Theorem (Rocq, all valid histories, all capacity hints): the tree model run on any history with keys inserted only while absent produces exactly the outputs of the association-list reference semantics for every operation (get_value, is_empty, handle reads, ...), never errs, and its abstraction (in-order entries) is a permutation of the reference state after every step; deleting an absent key returns the identical state. Tie to code: answers and full state of the real MapTree<MKey, Box<i64>> compared with the extracted model and the extracted reference semantics after every operation.",
          "Rocq refinement proof to an abstract map + correspondence run", "6 C04"),
